@@ -318,7 +318,15 @@ func (fx *FnCtx) appendCall(st *State, pc *Term, s, t Value, tt types.Type, rt t
 		fx.assume(Implies(pc, tc.IdxLe(n, ncap)))
 		// contents: old s then t
 		pre := st
-		for _, lf := range tc.Layout(el).Leaves {
+		leaves := tc.Layout(el).Leaves
+		if fx.root.boundedK > 0 {
+			// bounded instance search: explicit guarded copies keep the VC quantifier-free
+			g := And(pc, Not(fits))
+			fx.copyElems(stGr, g, el, nid, tc.IdxNum(0), sid, soff, slen)
+			fx.copyElems(stGr, g, el, nid, slen, tid, toff, tlen)
+			leaves = nil
+		}
+		for _, lf := range leaves {
 			name := arrHeapName(el, lf)
 			h := fx.Heap(pre, name, lf)
 			nw := Fresh("grow_"+name, ArraySort(tc.IdxSort(), lf.Sort))
